@@ -61,12 +61,70 @@ def Answer.join : Answer → Answer → Answer
 
 /-! ### the relaxation -/
 
-/-- `max {e·x + k | x ∈ sem cs}` by K1 -/
-def lpMax (n : Nat) (e : List Int) (k : Int) (cs : List Con) : Answer :=
+/-- `max {e·x + k | x ∈ sem cs}` by K1's Fourier–Motzkin supremum (complete, slow) -/
+def lpMaxFM (n : Nat) (e : List Int) (k : Int) (cs : List Con) : Answer :=
   match supB n e k cs with
   | .empty => .unfeasible
   | .unbounded => .unbounded
   | .val p q _ => .optimum ((p : Rat) / (q : Rat))
+
+/-- a rational point: numerators and a common divisor -/
+structure Pt where
+  num : List Int
+  den : Int
+deriving Repr, Inhabited
+
+def Pt.val (x : Pt) : Val := fun i => ((x.num.getD i 0 : Int) : Rat) / (x.den : Rat)
+
+/-- the row holds at `x` (decided in exact rational arithmetic) -/
+def conHolds (c : Con) (x : Val) : Bool :=
+  if c.strict then decide (0 < c.eval x) else decide (0 ≤ c.eval x)
+
+/-- rows describing a direction `d` of the recession cone of `cs` with `e·d ≥ 1` -/
+def rayRows (e : List Int) (cs : List Con) : List Con :=
+  geRow e (-1) :: cs.map fun c => ⟨c.coeffs, 0, false⟩
+
+/-- the row `e·x + k > v` -/
+def betterRow (e : List Int) (k : Int) (v : Rat) : Con :=
+  gtRow (e.map ((v.den : Int) * ·)) ((v.den : Int) * k - v.num)
+
+/-- **untrusted**: a candidate optimal point of `max e·x` over `cs`, from the exact simplex of K1
+    on the standard form `a·x⁺ − a·x⁻ − s = −k`, `x⁺, x⁻, s ≥ 0`.  Whatever it returns is checked. -/
+def lpCandidate (n : Nat) (e : List Int) (cs : List Con) : Option Pt :=
+  let m := cs.length
+  let nv := 2 * n + m
+  let csA := cs.toArray
+  let A : Array Simplex.Row := (Array.range m).map fun i =>
+    let c := csA.getD i default
+    (Array.range nv).map fun j =>
+      if j < n then ((c.coeffs.getD j 0 : Int) : Rat)
+      else if j < 2 * n then - ((c.coeffs.getD (j - n) 0 : Int) : Rat)
+      else if j - 2 * n == i then -1 else 0
+  let b : Array Rat := (Array.range m).map fun i => - (((csA.getD i default).k : Int) : Rat)
+  let c : Array Rat := (Array.range nv).map fun j =>
+    if j < n then - ((e.getD j 0 : Int) : Rat)
+    else if j < 2 * n then ((e.getD (j - n) 0 : Int) : Rat) else 0
+  match Simplex.solve A b c nv with
+  | .optimal v _ =>
+    let xs : List Rat := (List.range n).map fun j => v.getD j 0 - v.getD (n + j) 0
+    let (num, den) := toIntVec xs
+    some ⟨num, den⟩
+  | _ => none
+
+/-- `max {e·x + k | x ∈ sem cs}`: every answer is backed by a *verified* decision of K1 —
+    emptiness by `feasible`; unboundedness by a feasible point plus a recession direction that
+    improves the objective; an optimum by a point that satisfies every row (checked in exact
+    arithmetic) together with the infeasibility of "strictly better".  The simplex only proposes
+    the point; when a check fails the complete Fourier–Motzkin procedure answers. -/
+def lpMax (n : Nat) (e : List Int) (k : Int) (cs : List Con) : Answer :=
+  if !feasible n cs then .unfeasible
+  else if feasible n (rayRows e cs) then .unbounded
+  else match lpCandidate n e cs with
+    | some x =>
+      let v := dot e x.val + (k : Rat)
+      if cs.all (fun c => conHolds c x.val) && !feasible n (betterRow e k v :: cs) then .optimum v
+      else lpMaxFM n e k cs
+    | none => lpMaxFM n e k cs
 
 def negL (e : List Int) : List Int := e.map (- ·)
 
@@ -89,12 +147,15 @@ inductive Range
   | fin (lo hi : Int)          -- every solution has `lo ≤ x_i ≤ hi` (`lo`, `hi` integers)
 deriving Repr, DecidableEq, Inhabited
 
-/-- integers between the K1 infimum and supremum of `x_i` over `sem cs` -/
+/-- ⌊q⌋ -/
+def ratFloor (q : Rat) : Int := q.num / (q.den : Int)
+
+/-- integers between the infimum and the supremum of `x_i` over `sem cs` -/
 def varRange (n i : Nat) (cs : List Con) : Range :=
-  match supB n (unitRow i 1) 0 cs, supB n (unitRow i (-1)) 0 cs with
-  | .empty, _ => .empty
-  | _, .empty => .empty
-  | .val p q _, .val p' q' _ => .fin (-(p' / q')) (p / q)     -- ⌈-p'/q'⌉ , ⌊p/q⌋   (q, q' > 0)
+  match lpMax n (unitRow i 1) 0 cs, lpMax n (unitRow i (-1)) 0 cs with
+  | .unfeasible, _ => .empty
+  | _, .unfeasible => .empty
+  | .optimum hi, .optimum nlo => .fin (-(ratFloor nlo)) (ratFloor hi)     -- ⌈-nlo⌉ , ⌊hi⌋
   | _, _ => .unbounded
 
 /-- `lo, lo+1, …, hi` -/
@@ -128,19 +189,7 @@ def mipSize (P : Problem) : Option Nat :=
 
 /-! ### witnesses -/
 
-/-- a rational point: numerators and a common divisor -/
-structure Pt where
-  num : List Int
-  den : Int
-deriving Repr, Inhabited
-
-def Pt.val (x : Pt) : Val := fun i => ((x.num.getD i 0 : Int) : Rat) / (x.den : Rat)
-
 def Problem.objVal (P : Problem) (x : Val) : Rat := dot P.obj.coeffs x + (P.obj.k : Rat)
-
-/-- the row holds at `x` (decided in exact rational arithmetic) -/
-def conHolds (c : Con) (x : Val) : Bool :=
-  if c.strict then decide (0 < c.eval x) else decide (0 ≤ c.eval x)
 
 /-- `x` satisfies every row and is integral where required -/
 def checkFeasible (P : Problem) (x : Pt) : Bool :=
